@@ -105,6 +105,9 @@ def lib_exc(name, text):
         return im.CreditsError(-3, text, 'user msg')
     if name == 'ConflictingSessionError':
         return im.ConflictingSessionError(-4, text, 'sid', 'user msg')
+    if name == 'EmptyError':
+        # a user-defined exception whose instances are falsy (it defines __len__ and holds nothing)
+        return type('EmptyError', (Exception,), {'__len__': lambda self: 0})(text)
     if hasattr(im, name):
         return getattr(im, name)(text)
     if hasattr(idt, name):
@@ -137,7 +140,7 @@ def make_meta_adapter(S, sc, log, cur_job):
             outcome = 'valid'
             if name == 'initialize':
                 outcome = {'ret': 'valid', 'provider': ('raise', 'MetadataProviderError'), 'other': ('raise', 'RuntimeError'),
-                           'type': ('raise', 'TypeError'), 'attr': ('raise', 'AttributeError')}[sc.init_outcome]
+                           'type': ('raise', 'TypeError'), 'attr': ('raise', 'AttributeError'), 'empty': ('raise', 'EmptyError')}[sc.init_outcome]
             elif rid is not None:
                 ln = log['lines_by_rid'][rid]
                 outcome = ln.outcome
@@ -200,7 +203,7 @@ def make_data_adapter(S, sc, log, cur_job):
 
         def initialize(self, parameters, config_file=None):
             oc = {'ret': 'valid', 'provider': ('raise', 'DataProviderError'), 'other': ('raise', 'RuntimeError'),
-                  'type': ('raise', 'TypeError'), 'attr': ('raise', 'AttributeError')}[sc.init_outcome]
+                  'type': ('raise', 'TypeError'), 'attr': ('raise', 'AttributeError'), 'empty': ('raise', 'EmptyError')}[sc.init_outcome]
             self._call('initialize', (parameters,), oc)
 
         def set_listener(self, event_listener):
